@@ -96,12 +96,12 @@ theorem C22_reentrant_other_threads_excluded (s s' : ReentrantSpin.St) (t t2 : T
   rcases ReentrantSpin.apply_cases hap with ⟨op, rfl, hs⟩ | ⟨ev, rfl, hs, -⟩ | ⟨r, rfl, hs⟩
   · obtain ⟨f1, f2, f3, -, f5, -⟩ := ReentrantSpin.invoke_frame hs
     rw [f1, f2, f3]
-    exact ⟨rfl, rfl, rfl, hd2, f5 l, fun e => by cases e, fun e => by cases e⟩
+    refine ⟨rfl, rfl, rfl, hd2, f5 l, ?_, ?_⟩ <;> (intro e; cases e)
   · obtain ⟨g1, g2, -, g4, g5, g6, g7, g8⟩ := ReentrantSpin.others_excluded_step hi hd hne hs
     exact ⟨g1, g2, g4, g5, g6, fun _ hp => (g7 hp).1, fun _ hp => (g8 hp).1⟩
   · obtain ⟨f1, f2, f3, -, -, f6, -⟩ := ReentrantSpin.result_frame hs
     rw [f1, f2, f3, f6]
-    exact ⟨rfl, rfl, rfl, hd2, by simp [ReentrantSpin.takeOf], fun e => by cases e, fun e => by cases e⟩
+    refine ⟨rfl, rfl, rfl, hd2, by simp [ReentrantSpin.takeOf], ?_, ?_⟩ <;> (intro e; cases e)
 
 /-! ### `cds::sync::pool_monitor` (over a pool of `cds::sync::spin`) -/
 
